@@ -37,7 +37,29 @@ def one(m, with_tests):
                 return m["name"], "TESTS-FAIL", out[-600:]
         res = {}
         ev = tempfile.mkdtemp(prefix="dbft-selftest-ev-")
+        goprops = [p for p in m["props"] if p != "C20"]
+        shared = {}
+        if len(goprops) > 1 and not os.environ.get("SELFTEST_SEPARATE"):
+            # one process for all Go properties of this variant: the program is loaded and walked once (tooling only; the
+            # registered checks run one property per process)
+            cmd = "%s -repo %s -prop %s -tier quick -evidence %s -known %s/known_findings.json" % (os.environ.get("BIN", HERE + "/bin/dbftlint"), d, ",".join(goprops), ev, HERE)
+            env = dict(ENV)
+            t = "/root/go/pkg/mod/golang.org/toolchain@v0.0.1-go1.24.0.linux-amd64"
+            if os.path.isdir(t):
+                env.update(PATH=t + "/bin:" + env["PATH"], GOTOOLCHAIN="local", GOROOT=t)
+            rc, out = run(cmd, env=env)
+            for prop in goprops:
+                viol = ("VIOLATION property=%s " % prop) in out
+                okl = ("OK property=%s " % prop) in out
+                rules = sorted(set(re.findall(r"FINDING property=%s rule=(\S+)" % prop, out)))
+                if not viol and not okl:
+                    shared[prop] = (2, ["NO-VERDICT"])
+                else:
+                    shared[prop] = (1 if viol else 0, rules)
         for prop in m["props"]:
+            if prop in shared:
+                res[prop] = shared[prop]
+                continue
             if prop == "C20":
                 cmd = "python3 %s/tla/tlalint.py --repo %s --tier quick --evidence %s/%s.json --known %s/known_findings.json" % (HERE, d, ev, prop, HERE)
             else:
